@@ -1,75 +1,59 @@
 /-
 C02 — "The server's copy of an open document always equals the client's text".
 Property theorems only (helper lemmas: Proofs/Text.lean).  Model: Model/Text.lean (follows
-lspcommon/file_cache.go, lspcommon/util.go, textdocument_file_request.go); spec: Spec/Lsp.lean.
+lspcommon/util.go OffsetForPosition, lspcommon/file_cache.go, textdocument_file_request.go); spec: Spec/Lsp.lean.
 
-Main statement: outside the three known-finding classes (`TextFindings.bad`: an astral character
-before the position on its line; a lone CR before the position; character beyond end of line) the
-model's position→offset scans, its splice and its whole open/change/save/close state machine
-coincide with the LSP text model, for every well-formed UTF-8 document and every history.
-Inside each class a concrete witness shows the model (= the code, by the correspondence run)
-deviating: those are the recorded findings C02-K1..K3.
+Main statement (after the repair that made the position mapping follow LSP): for EVERY well-formed UTF-8
+document, EVERY position and EVERY history, the model's position → offset mapping, its splice and its whole
+open / change / save / close state machine coincide with the LSP text model — lines ended by LF, CR LF or a
+lone CR, characters counted in UTF-16 code units (an astral character is two), a character beyond the end
+of its line clamped to the line end, a position inside a surrogate pair clamped back; only a line that does
+not exist is an error, and then the change is not applied by either side.
+The three former finding classes (astral characters, lone CR, character beyond the end of line) are now
+theorems: `astral_counts_two`, `lone_cr_ends_line`, `beyond_end_clamps`.
 -/
 import LuaHelper.Proofs.Text
 namespace LuaHelper.C02
-open LuaHelper.Text LuaHelper.Lsp LuaHelper.TextFindings LuaHelper.TextProofs
+open LuaHelper.Text LuaHelper.Lsp LuaHelper.TextProofs
+
+instance (c : Ch) : Decidable (Ch.cont c) := by cases c <;> unfold Ch.cont <;> exact inferInstance
 
 /-- a well-formed UTF-8 document (what a conformant client holds) -/
-def WF (doc : Bytes) : Prop := ∃ cs : List Ch, (∀ x ∈ cs, x.wf) ∧ canon cs ∧ doc = encode cs
+def WF (doc : Bytes) : Prop :=
+  ∃ cs : List Ch, (∀ x ∈ cs, x.wf) ∧ (∀ x ∈ cs, Ch.cont x) ∧ canon cs ∧ doc = encode cs
 
-/-- the position is outside every finding class (decidable; evaluated by the driver as `K[]`) -/
-def okPos (doc : Bytes) (p : Pos) : Prop := bad (decode doc) p.line p.ch = false
-
-/-- position → offset used by every request (`OffsetForPosition`) agrees with LSP. -/
-theorem offset_refines (doc : Bytes) (p : Pos) (hwf : WF doc) (hk : okPos doc p) :
+/-- position → offset used by every request and every edit (`OffsetForPosition`) agrees with LSP, for
+    every position of every well-formed document. -/
+theorem offset_refines (doc : Bytes) (p : Pos) (hwf : WF doc) :
     offsetForPosition doc p = specOffset doc p := by
-  obtain ⟨cs, hw, hc, rfl⟩ := hwf
-  unfold okPos at hk
-  rw [decode_encode cs hw hc] at hk
-  unfold offsetForPosition specOffset
+  obtain ⟨cs, hw, hco, hc, rfl⟩ := hwf
+  unfold specOffset
   rw [decode_encode cs hw hc]
-  have := scan1_spec cs hw p.line p.ch 0 0 0 hk
-  have ht : target 0 0 p.line p.ch = p := by
-    cases p with
-    | mk l c => simp only [target, Nat.zero_add]; by_cases h : l = 0 <;> simp [h]
-  rw [ht] at this
-  exact this
+  exact position_spec cs hw hco hc p
 #print axioms offset_refines
 
 /-- (start, end) → offsets used by `ApplyContentChanges` agrees with LSP. -/
-theorem range_refines (doc : Bytes) (sp ep : Pos) (hwf : WF doc) (h1 : okPos doc sp)
-    (h2 : okPos doc ep) (hle : le2 sp.line sp.ch ep.line ep.ch) :
+theorem range_refines (doc : Bytes) (sp ep : Pos) (hwf : WF doc) :
     offsetForStartAndEnd doc sp ep =
       (match specOffset doc sp, specOffset doc ep with
-       | some s, some e => OffRes.ok s e
+       | some s, some e => if e < s then OffRes.err else OffRes.ok s e
        | _, _ => OffRes.err) := by
-  obtain ⟨cs, hw, hc, rfl⟩ := hwf
-  unfold okPos at h1 h2
-  rw [decode_encode cs hw hc] at h1 h2
-  unfold offsetForStartAndEnd specOffset
-  rw [decode_encode cs hw hc]
-  have := scan_spec cs hw sp.line sp.ch ep.line ep.ch 0 0 0 h1 h2 hle
-  have ht : ∀ p : Pos, target 0 0 p.line p.ch = p := by
-    intro p
-    cases p with
-    | mk l c => simp only [target, Nat.zero_add]; by_cases h : l = 0 <;> simp [h]
-  rw [ht, ht] at this
-  exact this
+  unfold offsetForStartAndEnd
+  rw [offset_refines doc sp hwf, offset_refines doc ep hwf]
+  cases specOffset doc sp <;> cases specOffset doc ep <;> rfl
 #print axioms range_refines
 
-/-- every change of a batch is conformant and outside the finding classes, relative to the text
-    the *client* holds when it is applied -/
+/-- every ranged change of a batch is applied to a well-formed text (the text the *client* holds when it is
+    applied) -/
 def goodBatch : Bytes → List Change → Prop
   | _, [] => True
   | doc, ch :: more =>
     match ch.range with
     | none => goodBatch ch.text more
-    | some (sp, ep) =>
-      WF doc ∧ okPos doc sp ∧ okPos doc ep ∧ le2 sp.line sp.ch ep.line ep.ch ∧
-      ∀ d, specApply doc [ch] = some d → goodBatch d more
+    | some _ => WF doc ∧ ∀ d, specApply doc [ch] = some d → goodBatch d more
 
-/-- `ApplyContentChanges` = the LSP splice, for whole batches (later ranges refer to the text after
-    the earlier changes). -/
+/-- `ApplyContentChanges` = the LSP splice, for whole batches (later ranges refer to the text after the
+    earlier changes), whatever the positions are. -/
 theorem apply_refines (chs : List Change) : ∀ (doc : Bytes), goodBatch doc chs →
     applyChanges doc chs = specApply doc chs := by
   induction chs with
@@ -85,9 +69,9 @@ theorem apply_refines (chs : List Change) : ∀ (doc : Bytes), goodBatch doc chs
     | some se =>
       obtain ⟨sp, ep⟩ := se
       simp only [hr] at hg
-      obtain ⟨hwf, h1, h2, hle, hnext⟩ := hg
+      obtain ⟨hwf, hnext⟩ := hg
       simp only [applyChanges, specApply, hr]
-      rw [range_refines doc sp ep hwf h1 h2 hle]
+      rw [range_refines doc sp ep hwf]
       cases hs : specOffset doc sp with
       | none => simp
       | some s =>
@@ -96,15 +80,14 @@ theorem apply_refines (chs : List Change) : ∀ (doc : Bytes), goodBatch doc chs
         | some e =>
           simp only
           have hb : e ≤ doc.length := by
-            obtain ⟨cs, hw, hc, rfl⟩ := hwf
+            obtain ⟨cs, hw, _, hc, rfl⟩ := hwf
             unfold specOffset at he
             rw [decode_encode cs hw hc] at he
             have := spec_bounds cs _ _ _ _ he
             omega
           by_cases hes : e < s
           · simp [hes]
-          · have hn : ¬ (e > doc.length ∨ e < s) := by omega
-            have hn' : ¬ (e > doc.length) := by omega
+          · have hn' : ¬ (e > doc.length) := by omega
             simp only [hn', hes, if_false, or_false]
             apply ih
             apply hnext
@@ -149,40 +132,43 @@ theorem history_refines_run (ops : List Op) (h : goodHist [] ops) : run ops = sp
 #print axioms history_refines
 #print axioms history_refines_run
 
-/-! ### non-vacuity: the hypotheses are met by a non-trivial history -/
+/-! ### non-vacuity: the hypotheses are met by a non-trivial document -/
 
-def demoDoc : Bytes := encode [.ascii 97, .two 0xC3 0xA9, .crlf, .three 0xE4 0xB8 0xAD, .ascii 98]
+def demoChars : List Ch := [.ascii 97, .two 0xC3 0xA9, .crlf, .three 0xE4 0xB8 0xAD, .four 0xF0 0x9F 0x98 0x80, .cr, .ascii 98]
+def demoDoc : Bytes := encode demoChars
 
 theorem demo_wf : WF demoDoc :=
-  ⟨[.ascii 97, .two 0xC3 0xA9, .crlf, .three 0xE4 0xB8 0xAD, .ascii 98], by decide, by simp [canon], rfl⟩
+  ⟨demoChars, by decide, by decide, by simp [demoChars, canon], rfl⟩
 #print axioms demo_wf
 
-/-! ### the finding classes are real: in each, the model leaves the spec (second sentence of the
-    property: "must not leave it silently working on stale text") -/
+/-! ### the three former finding classes, now instances of `offset_refines` -/
 
-/-- K1: `😀a`, position (0,2) is before `a` (UTF-16) — the model answers the end of the document. -/
-theorem K1_astral_witness :
-    offsetForPosition [0xF0, 0x9F, 0x98, 0x80, 97] ⟨0, 2⟩ ≠ specOffset [0xF0, 0x9F, 0x98, 0x80, 97] ⟨0, 2⟩ := by
-  simp [offsetForPosition, specOffset, scan1, stepLen, leadOnes, decode, specOffsetCh, Ch.isEol, Ch.units, Ch.bytes]
-#print axioms K1_astral_witness
+/-- `😀a`: position (0,2) is the offset of `a` — the astral character counts as two UTF-16 units -/
+theorem astral_counts_two :
+    offsetForPosition (encode [.four 0xF0 0x9F 0x98 0x80, .ascii 97]) ⟨0, 2⟩ = some 4 := by
+  rw [position_spec _ (by decide) (by decide) (by simp [canon])]
+  decide
+#print axioms astral_counts_two
 
-/-- K2: `a\rb`, position (1,0) is before `b` — the model rejects it. -/
-theorem K2_cr_witness :
-    offsetForPosition [97, 13, 98] ⟨1, 0⟩ = none ∧ specOffset [97, 13, 98] ⟨1, 0⟩ = some 2 := by
-  simp [offsetForPosition, specOffset, scan1, stepLen, decode, specOffsetCh, Ch.isEol, Ch.units, Ch.bytes]
-#print axioms K2_cr_witness
+/-- `a\rb`: position (1,0) is the offset of `b` — a lone CR ends a line -/
+theorem lone_cr_ends_line :
+    offsetForPosition (encode [.ascii 97, .cr, .ascii 98]) ⟨1, 0⟩ = some 2 := by
+  rw [position_spec _ (by decide) (by decide) (by simp [canon])]
+  decide
+#print axioms lone_cr_ends_line
 
-/-- K3: `a\nb`, position (0,5) must clamp to the end of line 0 — the model rejects it, and the
-    change handler then keeps the old text (stale). -/
-theorem K3_beyond_witness :
-    offsetForPosition [97, 10, 98] ⟨0, 5⟩ = none ∧ specOffset [97, 10, 98] ⟨0, 5⟩ = some 1 ∧
-    run [.opn 0 [97, 10, 98], .chg 0 [⟨some (⟨0, 5⟩, ⟨0, 5⟩), [120]⟩]] = [(0, [97, 10, 98])] ∧
-    specRun [.opn 0 [97, 10, 98], .chg 0 [⟨some (⟨0, 5⟩, ⟨0, 5⟩), [120]⟩]] = [(0, [97, 120, 10, 98])] := by
-  refine ⟨?_, ?_, ?_, ?_⟩
-  · simp [offsetForPosition, scan1, stepLen]
-  · simp [specOffset, decode, specOffsetCh, Ch.isEol, Ch.units, Ch.bytes]
-  · simp [run, step, Cache.get, Cache.set, applyChanges, offsetForStartAndEnd, scan, stepLen]
-  · simp [specRun, specStep, Cache.get, Cache.set, specApply, specOffset, decode, specOffsetCh, Ch.isEol, Ch.units, Ch.bytes]
-#print axioms K3_beyond_witness
+/-- `a\nb`: position (0,5) is clamped to the end of line 0 -/
+theorem beyond_end_clamps :
+    offsetForPosition (encode [.ascii 97, .lf, .ascii 98]) ⟨0, 5⟩ = some 1 := by
+  rw [position_spec _ (by decide) (by decide) (by simp [canon])]
+  decide
+#print axioms beyond_end_clamps
+
+/-- a line that does not exist is the only error, on both sides -/
+theorem missing_line_is_error :
+    offsetForPosition (encode [.ascii 97, .lf, .ascii 98]) ⟨2, 0⟩ = none := by
+  rw [position_spec _ (by decide) (by decide) (by simp [canon])]
+  decide
+#print axioms missing_line_is_error
 
 end LuaHelper.C02
